@@ -337,7 +337,8 @@ bool same(const std::vector<Tok>& a, const std::vector<Tok>& b) {
 }
 
 // ---- model of one child (POSIX default actions + the framework's documented phase rules) ----------------------------
-struct Expect { int stops, maybe; bool final_signal; int final_arg; uint8_t reach[NPHASE]; uint8_t acted[MAXA]; bool dies_outside_body; bool guard_ret, guard_throw; };
+struct Expect { int stops, maybe; bool final_signal; int final_arg; uint8_t reach[NPHASE]; uint8_t acted[MAXA]; bool dies_outside_body; bool guard_ret, guard_throw;
+                bool status_by_code; int child_failures; };   // status_by_code: the child ran to its end, the exit status is computed by the code under test
 Expect model_child(const RealTest& rt) {
     Expect e; memset(&e, 0, sizeof e);
     int child_failures = 0; bool skip_body = false, done = false;
@@ -375,10 +376,12 @@ Expect model_child(const RealTest& rt) {
             if (leave_phase) break;
         }
     }
-    if (!done) { e.final_signal = false; e.final_arg = child_failures > 0 ? 1 : 0; }
+    if (!done) { e.final_signal = false; e.final_arg = child_failures > 0 ? 1 : 0; e.status_by_code = true; }
+    e.child_failures = child_failures;
     return e;
 }
 
+std::string failure_routes(const RealTest& rt, const Expect& e);
 std::string act_str(const Act& a) {
     switch (a.kind) {
     case K_FAIL: return sfmt("%s:fail(%s)", PH[a.phase], ((a.phase == PRE || a.phase == POST) && a.var >= F_UNEXPECTED) ? FV[F_ADDONLY] : FV[a.var]);
@@ -387,6 +390,19 @@ std::string act_str(const Act& a) {
     case K_ABORT: return sfmt("%s:abort", PH[a.phase]);
     default: return sfmt("%s:nothing", PH[a.phase]);
     }
+}
+// how the failures of a child that ran to its end were recorded (for messages)
+std::string failure_routes(const RealTest& rt, const Expect& e) {
+    std::string s;
+    for (int ai = 0; ai < rt.nact; ai++) {
+        const Act& a = rt.acts[ai];
+        if (a.kind != K_FAIL || !e.acted[ai]) continue;
+        if (!s.empty()) s += "; ";
+        if (a.phase == PRE || a.phase == POST) s += sfmt("plugin %s action: result.addFailure", PH[a.phase]);
+        else s += sfmt("%s: %s", PH[a.phase], a.var == F_THROW ? "failed check (throwing)" : a.var == F_LONGJMP ? "failed check (longjmp)" :
+                                              a.var == F_UNEXPECTED ? "unexpected exception" : "UtestShell::addFailure without leaving the test");
+    }
+    return s.empty() ? std::string("none") : s;
 }
 std::string real_str(const RealTest& rt) {
     std::string s = "[";
@@ -545,7 +561,18 @@ int run_real_program(int ntests, bool& nontrivial) {
                 for (int ai = 0; ai < rt.nact; ai++)
                     V_CHECK(g_sh->acted[t][ai] == e.acted[ai], "C11:child-progress", "t%d %s: action #%d %s, model says %s",
                             t, real_str(rt).c_str(), ai, g_sh->acted[t][ai] ? "executed" : "not executed", e.acted[ai] ? "executed" : "not executed");
-                if (finals_seen == 1) {
+                if (finals_seen == 1 && e.status_by_code && WIFEXITED(final_status)) {
+                    // the child ran to its end: its exit status is the verdict the code under test hands to the parent, so a
+                    // wrong zero / non-zero here is a violation of the property, whatever the parent makes of it
+                    int k = WEXITSTATUS(final_status);
+                    if (e.child_failures > 0 && k == 0)
+                        return verif::fail("C11:records-for-failed-child", "t%d %s: the child recorded %d failure(s) (%s) and still exited 0, so the parent cannot record the test as failed; parent records %s",
+                                           t, real_str(rt).c_str(), e.child_failures, failure_routes(rt, e).c_str(), toks_str(got).c_str());
+                    if (e.child_failures == 0 && k != 0)
+                        return verif::fail("C11:records-for-clean-child", "t%d %s: the child completed without any failure and exited %d; parent records %s",
+                                           t, real_str(rt).c_str(), k, toks_str(got).c_str());
+                } else if (finals_seen == 1 && !e.status_by_code) {
+                    // the status was produced by the harness's own action (_exit / raise / abort / guard): a mismatch is an artefact
                     bool match = e.final_signal ? (WIFSIGNALED(final_status) && WTERMSIG(final_status) == e.final_arg)
                                                 : (WIFEXITED(final_status) && WEXITSTATUS(final_status) == e.final_arg);
                     V_CHECK(match, "C11:harness-child-status", "t%d %s: kernel status 0x%x, model expects %s %d", t, real_str(rt).c_str(),
